@@ -84,6 +84,14 @@ def drive_legacy(tier):
                     tx.vout, tx.vin, tx.nLockTime = tx2.vout, tx2.vin, tx2.nLockTime
                     js = gen.tx_json(d)
                     before = tx.serialize()
+                elif mut:
+                    # the objects the transaction is made of edited in place after they have been hashed
+                    for ht in (1, 2, 3, 0x81, 0x83):
+                        call(RawSignatureHash, sc, tx, idx, ht)
+                        tx.serialize()
+                    d = gen.edit_in_place(r, d, tx)
+                    js = gen.tx_json(d)
+                    before = tx.serialize()
                 for ht in hts:
                     k, v = call(RawSignatureHash, sc, tx, idx, ht)
                     same = tx.serialize() == before
@@ -134,6 +142,14 @@ def drive_v0(tier):
                         d["vout"][0]["value"] = 12345
                     tx2 = gen.build_tx(d, True)
                     tx.vout, tx.vin = tx2.vout, tx2.vin
+                    js = gen.tx_json(d)
+                    before = tx.serialize()
+                elif mut:
+                    # the objects the transaction is made of edited in place after they have been hashed
+                    for ht in (1, 2, 3, 0x81, 0x83):
+                        call(SignatureHash, CScript(code), tx, idx, ht, amount, SIGVERSION_WITNESS_V0)
+                        tx.serialize()
+                    d = gen.edit_in_place(r, d, tx)
                     js = gen.tx_json(d)
                     before = tx.serialize()
                 for ht in hts:
